@@ -8,6 +8,7 @@ import (
 	"github.com/boombuler/barcode"
 
 	"verifharness/fw"
+	"verifharness/refdec"
 )
 
 // C09 — Scale: integer, centred, distortion-free enlargement or an error.
@@ -69,6 +70,25 @@ func c09Sources(tier string, seed int64) []Req {
 	add("ean", "123456789012", 12)
 	add("2of5", "1234567", -1, 0)
 	add("code128", string(randBytes(r, 80, lowerAB)), -1) // > 900 modules
+	// every distinct symbol size of the 2D families (exact multiples are what
+	// reciprocal / rounding shortcuts get wrong for particular sizes)
+	step := 3
+	if tier == "thorough" {
+		step = 1
+	}
+	for v := 1 + int(seed%int64(step)); v <= 40; v += step {
+		out = append(out, Req{Fam: "qr", S: qrForced(r, 4, refdec.QRCapacity(4, v, 0)), I: []int64{0, 3}, Scheme: -1})
+	}
+	for i, cp := range refdec.DMCapacities() {
+		if i%step == int(seed%int64(step)) {
+			out = append(out, Req{Fam: "datamatrix", S: dmContent(r, 0, cp[1]), Scheme: -1})
+		}
+	}
+	for l := int64(-4); l <= 32; l++ {
+		if l != 0 && (int(l)+4)%step == int(seed%int64(step)) {
+			out = append(out, Req{Fam: "aztec", S: []byte("A"), I: []int64{23, l}, Scheme: -1})
+		}
+	}
 	if tier == "thorough" {
 		for i := 0; i < 60; i++ {
 			fam := families[i%len(families)]
@@ -217,7 +237,7 @@ func scaleModel(src barcode.Barcode, res barcode.Barcode, err error, w, h int, f
 }
 
 func gridSizes(s int) []int {
-	return []int{1, s - 1, s, s + 1, 2*s - 1, 2 * s, 2*s + 1, 3*s - 1, 3 * s, 3*s + 2}
+	return []int{1, s - 1, s, s + 1, 2*s - 1, 2 * s, 2*s + 1, 3*s - 1, 3 * s, 3*s + 2, 4 * s, 5 * s}
 }
 
 func (p c09) Exec(c *fw.Ctx, u *fw.Unit) {
